@@ -11,8 +11,8 @@
      src/unix/udp.c      uv__udp_close (56-64), uv__udp_finish_close (67-92),
                          uv__udp_run_completed (95-135)
      src/unix/signal.c   uv__signal_close (352-354) + the re-queue in uv__finish_close
-     src/fs-poll.c       uv_fs_poll_start/stop (65-137), uv__fs_poll_close (167-172),
-                         poll_cb (187-234), timer_close_cb (237-258)
+     src/fs-poll.c       uv_fs_poll_start/stop (65-140), uv__fs_poll_close,
+                         poll_cb (incl. the superseded-context test), timer_close_cb
      poll/process/fs_event/timer/idle/prepare/check/async: stop only ([TSimple]).
 
    The outside world is the script: which requests the API accepted
@@ -166,16 +166,19 @@ Definition fp_stop (s : cstate) (h : nat) : cstate :=
   else s.
 
 (* poll_cb, tail: applied to the oldest context whose stat is in flight;
-   result: the new chain and (context, was its timer closed) *)
-Fixpoint stat_done (closing_or_inactive : bool) (l : list ctx) : list ctx * option (nat * bool) :=
+   [head]: is the first element of l the handle's current context
+   (handle->poll_ctx == ctx).  A context whose handle is inactive or closing, or
+   that has been superseded by stop + start, closes its timer; otherwise it
+   re-arms it.  Result: the new chain and (context, was its timer closed) *)
+Fixpoint stat_done (closing_or_inactive head : bool) (l : list ctx) : list ctx * option (nat * bool) :=
   match l with
   | [] => ([], None)
   | c :: rest =>
-      match stat_done closing_or_inactive rest with
+      match stat_done closing_or_inactive false rest with
       | (rest', Some r) => (c :: rest', Some r)
       | (_, None) =>
           if c_stat c then
-            if closing_or_inactive
+            if closing_or_inactive || negb head
             then (mkC (c_id c) false 2 :: rest, Some (c_id c, true))   (* uv_close(timer) *)
             else (mkC (c_id c) false 1 :: rest, Some (c_id c, false))  (* uv_timer_start *)
           else (c :: rest, None)
@@ -380,7 +383,7 @@ Definition req_cb (s : cstate) (beh : nat -> list cop) (r : nat) (st : Z) : csta
   end.
 
 (* the completed queue is delivered by the I/O phase; for a stream whose write
-   queue is empty afterwards uv__drain follows *)
+   queue and completed queue are both empty afterwards uv__drain follows *)
 Definition batch (s : cstate) (beh : nat -> list cop) (h : nat) : cstate :=
   let x := hget s h in
   if usable s h && (htype_eqb (h_ty x) TStream || htype_eqb (h_ty x) TUdp) then
@@ -390,7 +393,8 @@ Definition batch (s : cstate) (beh : nat -> list cop) (h : nat) : cstate :=
         let s1 := run_cq pq h (upd_h (emit s (EIn (OBatch h))) h (w_cq [])) beh in
         let x1 := hget s1 h in
         if htype_eqb (h_ty x) TStream && h_closing x1 &&
-           match h_wq x1 with [] => true | _ => false end
+           match h_wq x1 with [] => true | _ => false end &&
+           match h_cq x1 with [] => true | _ => false end
         then drain_closing s1 beh h else s1
     end
   else s.
@@ -402,7 +406,7 @@ Definition fp_stat (s : cstate) (h : nat) : cstate :=
   let x := hget s h in
   if hvalid s h && htype_eqb (h_ty x) TFsPoll && has_stat (h_ctxs x) then
     let s0 := emit (emit s (ETouch h)) (EIn (OFpStat h)) in
-    match stat_done (negb (h_active x) || h_closing x) (h_ctxs x) with
+    match stat_done (negb (h_active x) || h_closing x) true (h_ctxs x) with
     | (l, Some (c, true)) => push_clq (upd_h s0 h (w_ctxs l)) (CT h c)
     | (l, _) => upd_h s0 h (w_ctxs l)
     end
